@@ -1,6 +1,7 @@
 package checks
 
 import (
+	"bytes"
 	"crypto/x509"
 	"crypto/x509/pkix"
 	"encoding/asn1"
@@ -451,6 +452,7 @@ func runC02(r *mc.Run) {
 		}
 		r.Eval(id, true, "config-intel:"+out)
 	}
+	c02IntelLookalikes(r)
 	c02Histories(r)
 	// Intel's own sample quote: accepted under the embedded root at its reference time, rejected under {T}.
 	for _, pc := range []struct {
@@ -468,6 +470,103 @@ func runC02(r *mc.Run) {
 			r.Violate("intel-sample:"+pc.name, id, fmt.Sprintf("Intel sample quote under pool %s: want accept=%v, got %v", pc.name, pc.want, err), nil)
 		}
 		r.Eval(id, true, "intel:"+verdict(err))
+	}
+}
+
+// c02IntelLookalikes: private PKIs that copy, cumulatively, everything of Intel's real certificates that an issuer
+// chooses freely — the exact subject bytes, the subject / authority key identifiers, the serial numbers, the validity —
+// over their own keys. Under the embedded root (no pool), an empty pool and an unrelated pool such a quote is rejected.
+func c02IntelLookalikes(r *mc.Run) {
+	p, err := ref.ParseQuote(testdata.RawQuote)
+	if err != nil {
+		r.HarnessError("C02: Intel sample quote does not parse: %v", err)
+		return
+	}
+	ders := ref.ChainDERs(bytes.TrimRight(p.Chain, "\x00"))
+	if len(ders) != 3 {
+		r.HarnessError("C02: Intel sample chain does not hold three certificates")
+		return
+	}
+	var intel [3]*x509.Certificate // leaf, intermediate, root
+	for i := range intel {
+		if intel[i], err = x509.ParseCertificate(ders[i]); err != nil {
+			r.HarnessError("C02: Intel sample certificate %d does not parse: %v", i, err)
+			return
+		}
+	}
+	U := world.CachedPKI("U")
+	keys := [3]*world.Key{world.NewKey("I/leaf"), world.NewKey("I/inter"), world.NewKey("I/root")}
+	levels := []string{"subject-bytes", "+key-identifiers", "+serials", "+validity"}
+	pools := []struct {
+		name string
+		pool *x509.CertPool
+	}{{"nil(embedded)", nil}, {"empty", world.Pool()}, {"{unrelated}", world.Pool(U.Root)}}
+	w := world.Honest("T")
+	for lvl := range levels {
+		mk := func(i int, parent *x509.Certificate, signer *world.Key) *x509.Certificate {
+			src := intel[i]
+			sp := world.CertSpec{CN: src.Subject.CommonName, Key: keys[i], RawSubject: src.RawSubject, IsCA: src.IsCA}
+			if src.IsCA {
+				sp.MaxPathLen = -1
+				if i == 2 {
+					sp.MaxPathLen = 1
+				}
+			}
+			if i == 0 {
+				for _, e := range src.Extensions {
+					if e.Id.Equal(world.OidSGX) {
+						sp.SGXExt = e.Value
+					}
+				}
+			}
+			if lvl >= 1 {
+				sp.SubjectKeyID, sp.AuthorityKeyID = src.SubjectKeyId, src.AuthorityKeyId
+			}
+			if lvl >= 2 {
+				sp.Serial = src.SerialNumber
+			}
+			if lvl >= 3 {
+				sp.NotBefore, sp.NotAfter = src.NotBefore, src.NotAfter
+			}
+			return world.MakeCert(sp, parent, signer)
+		}
+		root := mk(2, nil, keys[2])
+		inter := mk(1, root, keys[2])
+		leaf := mk(0, inter, keys[1])
+		parts := w.Parts.Clone()
+		parts.Chain = world.PEM(leaf, inter, root)
+		parts.SignQE(keys[0])
+		raw, _ := parts.Bytes()
+		if rp, perr := ref.ParseQuote(raw); perr != nil || !ref.LinksOf(rp).All() {
+			r.HarnessError("C02: look-alike quote is not self-consistent (%v)", perr)
+			return
+		}
+		for _, pc := range pools {
+			for _, l := range []int{world.L0, world.L1} {
+				id := fmt.Sprintf("intel-lookalike/%s/pool=%s/%s", levels[lvl], pc.name, lvlName[l])
+				if !r.Want(id) {
+					continue
+				}
+				now := world.TimeSetAt(intelRefTime)
+				o := &verify.Options{GetCollateral: l >= 1, Getter: w.Getter.Clone(), Now: &now, TrustedRoots: pc.pool}
+				err := world.SafeVerifyRaw(raw, o)
+				out := verdict(err)
+				if err == nil {
+					r.Violate("intel-lookalike-accepted:"+levels[lvl]+":pool="+pc.name, id, "a quote that is self-consistent under a private PKI copying Intel's "+levels[lvl]+" (own keys) is accepted although its root is not trusted", map[string]any{"raw_quote_hex": hexs(raw)})
+					out = "accept!"
+				}
+				r.Eval(id, true, "lookalike:"+out)
+			}
+		}
+	}
+	// control: the genuine sample is accepted under the embedded root at the same time
+	if r.Want("intel-lookalike/control") {
+		now := world.TimeSetAt(intelRefTime)
+		err := world.SafeVerifyRaw(testdata.RawQuote, &verify.Options{Now: &now})
+		if err != nil {
+			r.Violate("intel-lookalike:control-rejected", "intel-lookalike/control", "Intel's genuine sample is rejected under the embedded root: "+errStr(err), nil)
+		}
+		r.Eval("intel-lookalike/control", true, "lookalike-control:"+verdict(err))
 	}
 }
 
